@@ -151,3 +151,70 @@ Example adapt_mixed :
   adapt_in true (mkSp 2 0 [Some 7%N] [Some 1%N] [0]) = Some (mkMs (Some (mkFc 2 (10 * 1024 * 1024))) [7%N] [1%N] 0) /\
   is_nack (mkMs None [] [1%N] 0) = true.
 Proof. vm_compute. repeat split. Qed.
+
+(* ---- bridge to the streamer LTS: whatever mixture of acks, nacks and extensions one request
+   carries, the reader removes from the flow-control accounting only ids the client gave up -
+   so the LServerRemove step it performs is enabled right after the client's own LClientSettle,
+   and the flow-control bound (StreamerProofs.Bound) is preserved across the request *)
+
+Lemma filter_all {A} (f : A -> bool) l : (forall x, In x l -> f x = true) -> filter f l = l.
+Proof.
+  induction l as [|x l IH]; cbn [filter]; intros H; [reflexivity|].
+  rewrite (H x (or_introl eq_refl)). f_equal. apply IH. intros y Hy. apply H. right. exact Hy.
+Qed.
+
+Lemma map_fst_combine {A B} (l : list A) (l' : list B) : length l = length l' -> map fst (combine l l') = l.
+Proof.
+  revert l'. induction l as [|x l IH]; intros [|y l'] H; cbn in *; try reflexivity; try discriminate.
+  f_equal. apply IH. injection H as H. exact H.
+Qed.
+
+Theorem reader_removes_given_up initial r m :
+  adapt_in initial r = Some m ->
+  incl (reader_removes m) (given_up (ms_ack m) (ms_delay m) (sp_mod_secs r)).
+Proof.
+  intros H. unfold reader_removes, given_up.
+  apply incl_app; [apply incl_appl, incl_refl|].
+  destruct (is_nack m) eqn:En; [|intros x []].
+  apply incl_appr.
+  pose proof (adapt_nack_iff initial r m H) as [Hn _]. destruct (Hn En) as [_ Hall].
+  destruct (adapt_forwards_ids initial r m H) as [_ Hids].
+  destruct (adapt_run initial r m H) as [acks [dl [_ [_ [L _]]]]].
+  assert (Ll : length (ms_delay m) = length (sp_mod_secs r)).
+  { rewrite L, Hids, map_length. reflexivity. }
+  rewrite filter_all.
+  - rewrite (map_fst_combine _ _ Ll). apply incl_refl.
+  - intros [i s] Hin. cbn [snd]. apply Z.leb_le. apply Hall. eapply in_combine_r. exact Hin.
+Qed.
+
+Lemma mem_in i l : mem i l = true <-> In i l.
+Proof.
+  unfold mem. rewrite existsb_exists. split.
+  - intros [x [Hx E]]. apply N.eqb_eq in E. subst. exact Hx.
+  - intros Hi. exists i. split; [exact Hi|apply N.eqb_refl].
+Qed.
+
+(* the two steps of one request: the client settles what it gives up, the reader removes what the
+   translated request tells it to: always enabled, and the bound survives *)
+Theorem request_keeps_bound initial r m s :
+  adapt_in initial r = Some m -> Bound s ->
+  let g := given_up (ms_ack m) (ms_delay m) (sp_mod_secs r) in
+  exists s1 s2, step s (LClientSettle g) = Some s1 /\ step s1 (LServerRemove (reader_removes m)) = Some s2 /\ Bound s2.
+Proof.
+  intros H HB g.
+  assert (E1 : step s (LClientSettle g) = Some (mkS (fc s) (pending s) (filter (fun i => negb (mem i g)) (client s)) (tok s) (pc s))).
+  { unfold step. destruct (pc s); reflexivity. }
+  eexists. exists (mkS (fc s) (remove_ids (reader_removes m) (pending s)) (filter (fun i => negb (mem i g)) (client s)) true (pc s)).
+  split; [exact E1|].
+  assert (E2 : step (mkS (fc s) (pending s) (filter (fun i => negb (mem i g)) (client s)) (tok s) (pc s)) (LServerRemove (reader_removes m)) =
+               Some (mkS (fc s) (remove_ids (reader_removes m) (pending s)) (filter (fun i => negb (mem i g)) (client s)) true (pc s))).
+  { unfold step. cbn [pc client pending fc tok].
+    assert (F : forallb (fun i => negb (mem i (filter (fun i0 => negb (mem i0 g)) (client s)))) (reader_removes m) = true).
+    { apply forallb_forall. intros i Hi. apply negb_true_iff. apply not_true_is_false. intros Hm.
+      apply mem_in in Hm. apply filter_In in Hm as [_ Hng]. apply negb_true_iff in Hng.
+      apply (reader_removes_given_up initial r m H) in Hi. fold g in Hi. apply mem_in in Hi. rewrite Hi in Hng. discriminate. }
+    destruct (pc s); rewrite F; reflexivity. }
+  split; [exact E2|].
+  refine (bound_step _ (LServerRemove (reader_removes m)) _ _ I E2).
+  exact (bound_step _ (LClientSettle g) _ HB I E1).
+Qed.
